@@ -149,6 +149,17 @@ CLAIMED.update({
              technique='Coq proof over a regenerated AST inventory + small abstract-machine theory of placement; placement/optimisation-level differential runs and alignment sanitizer',
              ref='DESIGN.md section 4 C15'),
 })
+CLAIMED.update({
+ 'C16': dict(text='Theorems C16_static_storage and C16_external_callees over the inventory regenerated from the clang AST of every library source on each run: every object with static storage duration '
+                  '(file scope or function-local static) is const at every level, and the only functions called from outside the library are memcpy and memset. Theorem C16_order_irrelevant (generic, by '
+                  'induction over the call list and over Permutation): calls that touch only the object they are given and are pairwise conflict-free (same object + at least one writer = conflict) end in '
+                  'the same memory in ANY execution order and each returns what it returns when run alone. C05_local gives the same for interleaved histories of the concrete library operations.',
+             note='Granularity: whole calls on whole objects over sequentially consistent memory; the step from data-race freedom to hardware behaviour is the C11 DRF-SC guarantee (assumed). That library '
+                  'operations touch only the buffer they are given is the shape of every model function (buffer in, buffer out), tied to the code by the C05 multi-buffer histories. Cross-checks: nm/readelf of '
+                  'the compiled objects (no writable section content), 8-thread ThreadSanitizer stress with per-thread results compared with the sequential run. Print Assumptions: closed under the global context.',
+             technique='Coq proof over a regenerated AST inventory + generic commutation theorem for conflict-free calls; object inspection and TSan stress as supporting runs',
+             ref='DESIGN.md section 4 C16'),
+})
 ALL = ['C%02d' % i for i in range(1, 21)]
 def main():
     checks = []
